@@ -8,13 +8,20 @@ import Canopy.Gen.Store
 key list). One block commit applies `blockBatches shape next b`: the commit-id records, the SMT node
 writes, the latest + historical state with the tombstone purge (exactly C10's `commitBatch`), and the
 indexer entries (QC, block, txs, events). A reopened store reads its height from the latest commit-id
-record (`version`), as `getLatestCommitID` does.
+record (`version`), as `getLatestCommitID` does: a versioned read of `a/` at the reserved version 2^64-1.
+`Store.Rollback(target)` is one more batch (prune the version window above `target`, patch the latest state,
+re-point `a/` — at the reserved version — to the commit id recorded for `target`); a history is a list of
+block commits and rollbacks (`Ev`, `runEv`).
 
 *What is proved*: the atomicity logic — given that the block's writes form ONE batch (derived below
 from facts regenerated from `store/store.go` and `controller/block.go`), every prefix of the applied
 batches is a state the uncrashed run passed through: the reopened height, the recorded root, and every
 key of every partition equal the uncrashed values after that block; entries of earlier heights are
-never touched; continuing reproduces the uncrashed run.
+never touched; continuing reproduces the uncrashed run. The same over histories with `Rollback` in the
+middle (`reopen_height`, `crash_prefix_history`), which additionally needs that `setCommitID` writes the
+latest-commit pointer at the reserved version (generated fact, `ptr_lss`): were it written at the block's own
+version, the pointer a rollback leaves at the reserved version would shadow every later one
+(`pointer_at_commit_version_reopens_stale`).
 
 *What is assumed, not proved*: pebble applies a batch atomically and, after a crash at any
 file-system operation boundary with any subset of unsynced data surviving, recovers the result of a
@@ -83,6 +90,18 @@ def shapeOfSource : Shape :=
 
 theorem shape_single : shapeOfSource = .single := by decide
 
+/-- where the latest-commit pointer is written, read off the source: `setCommitID` writes `lastCommitIDPrefix`
+with `SetAt(…, lssVersion)` (a plain `Set` on the versioned store of the commit would be recorded as
+`@version`), `Rollback` re-points it at `lssVersion`, and `getLatestCommitID` reads it through a versioned
+store bound to `lssVersion` -/
+def ptrOfSource : PtrAt :=
+  if Gen.Store.setCommitIDWrites = ["lastCommitIDPrefix@lssVersion", "s.commitIDKey(version)@version"] ∧
+     Gen.Store.rollbackPointerWrites = ["lastCommitIDPrefix@lssVersion"] ∧
+     Gen.Store.latestCommitIDRead = ["lssVersion", "Get(lastCommitIDPrefix)"]
+  then .lss else .commitVersion
+
+theorem ptr_lss : ptrOfSource = .lss := by decide
+
 /-! ## crash_prefix -/
 
 /-- **`crash_prefix`** — for every block sequence `bs` and every crash prefix (`j` batches survive):
@@ -92,19 +111,19 @@ the reopened store
   commit ids), exactly what the uncrashed run held after block `j`;
 * continues: applying blocks `j+1 …` yields, step by step, the states of the uncrashed run. -/
 theorem crash_prefix (bs : List BlockIn) (hb : bs.length < 18446744073709551616) (j : Nat) (hj : j ≤ bs.length) :
-    let disk := run shapeOfSource [] bs
+    let disk := run shapeOfSource ptrOfSource [] bs
     let crashed := disk.take j
     version crashed = j ∧
     (∀ b, bs[j - 1]? = some b → 0 < j → latestRoot crashed = b.root) ∧
-    crashed = run shapeOfSource [] (bs.take j) ∧
-    dbOf crashed = dbOf (run shapeOfSource [] (bs.take j)) ∧
-    run shapeOfSource crashed (bs.drop j) = disk ∧
+    crashed = run shapeOfSource ptrOfSource [] (bs.take j) ∧
+    dbOf crashed = dbOf (run shapeOfSource ptrOfSource [] (bs.take j)) ∧
+    run shapeOfSource ptrOfSource crashed (bs.drop j) = disk ∧
     ∀ i, i ≤ (bs.drop j).length →
-      run shapeOfSource crashed ((bs.drop j).take i) = run shapeOfSource [] (bs.take (j + i)) := by
-  rw [shape_single]
+      run shapeOfSource ptrOfSource crashed ((bs.drop j).take i) = run shapeOfSource ptrOfSource [] (bs.take (j + i)) := by
+  rw [shape_single, ptr_lss]
   simp only
   have htake := take_run_single bs j
-  have hver : version (run .single [] (bs.take j)) = j := by
+  have hver : version (run .single .lss [] (bs.take j)) = j := by
     have := version_run_single (bs.take j) [] (by rw [version_empty]; simp; omega)
     rw [this, version_empty]; simp; omega
   refine ⟨by rw [htake]; exact hver, ?_, htake, by rw [htake], ?_, ?_⟩
@@ -128,9 +147,9 @@ earlier heights read the same from the crashed-and-reopened store as they did wh
 state partition this is C10's `history_immutable`.) -/
 theorem earlier_heights_intact (bs : List BlockIn) (hb : bs.length + 1 < maxVer) (i j : Nat) (hij : i ≤ j)
     (hj : j ≤ bs.length) (u : Bytes) (w : Nat) (hw : w ≤ i) :
-    smGet (dbOf ((run shapeOfSource [] bs).take j)) (mkKey u w) =
-      smGet (dbOf ((run shapeOfSource [] bs).take i)) (mkKey u w) := by
-  rw [shape_single, take_run_single, take_run_single]
+    smGet (dbOf ((run shapeOfSource ptrOfSource [] bs).take j)) (mkKey u w) =
+      smGet (dbOf ((run shapeOfSource ptrOfSource [] bs).take i)) (mkKey u w) := by
+  rw [shape_single, ptr_lss, take_run_single, take_run_single]
   have hmv : maxVer = 18446744073709551615 := rfl
   induction j with
   | zero =>
@@ -144,7 +163,7 @@ theorem earlier_heights_intact (bs : List BlockIn) (hb : bs.length + 1 < maxVer)
       have hsplit : bs.take (j + 1) = bs.take j ++ [bs[j]] := by
         rw [List.take_add_one, List.getElem?_eq_getElem hjl]; simp
       rw [hsplit, run_append]
-      have hver : version (run .single [] (bs.take j)) = j := by
+      have hver : version (run .single .lss [] (bs.take j)) = j := by
         have := version_run_single (bs.take j) [] (by rw [version_empty]; simp; omega)
         rw [this, version_empty]; simp; omega
       exact commit_keeps_older _ _ u w (by rw [hver]; omega) (by rw [hver]; omega)
@@ -159,14 +178,89 @@ def demo : List BlockIn :=
 /-- non-vacuity: with the real shape every crash prefix of `demo` reopens at a committed height with
 its block indexed -/
 example : (List.range 3).all (fun j =>
-    let d := (run shapeOfSource [] demo).take j
+    let d := (run shapeOfSource ptrOfSource [] demo).take j
     version d == j && (j == 0 || (idxGet d [6, UInt8.ofNat j]).isSome)) = true := by decide +kernel
 
 /-- **were the indexer applied as a second batch, the property would fail**: after block 1's first
 batch alone the store reopens at height 1 with the state of block 1 — and no indexed block 1. -/
 theorem split_commit_breaks_atomicity :
-    let d := (run .split [] demo).take 1
+    let d := (run .split .lss [] demo).take 1
     version d = 1 ∧ stateScan d = [([1, 97], [1])] ∧ idxGet d [6, 1] = none := by
+  decide +kernel
+
+/-! ## histories with `Rollback(target)` in the middle -/
+
+/-- **`reopen_height`** — after any history of block commits and rollbacks (SMT node keys not colliding with
+commit-id keys), the store opens at the height the history ends at — `specRun`: a block adds a height, an
+accepted `Rollback(t)` cuts the chain to `t` — with the root of the block that is that height, and holds the
+commit id of every height of the chain. Depends on `ptr_lss`: the pointer read by `getLatestCommitID` is the
+one the last commit or rollback wrote. -/
+theorem reopen_height (evs : List Ev) (hok : ∀ b, Ev.block b ∈ evs → SmtOK b) (hlen : evs.length < maxVer) :
+    let disk := runEv shapeOfSource ptrOfSource [] evs
+    let chain := specRun [] evs
+    version disk = chain.length ∧
+    (∀ b, chain.getLast? = some b → latestRoot disk = b.root) ∧
+    ∀ h (hh : h < chain.length),
+      smGet (dbOf disk) (mkKey (commitIDKey (h + 1)) (h + 1)) = some (cidVal (h + 1) chain[h].root) := by
+  rw [shape_single, ptr_lss]
+  have := ChainInv.run evs [] [] chainInv_empty hok (by simpa using hlen)
+  exact ⟨this.ver, this.root, this.cid⟩
+
+/-- **`crash_prefix` over histories** — for every history and every crash prefix (`j` batches survive) the
+reopened store is the store of a prefix of the history: same batches, hence key for key the same database;
+it opens at the height that prefix ends at (not at an earlier rollback target), with that block's root; and
+re-running the rest of the history from it reproduces the uncrashed run. -/
+theorem crash_prefix_history (evs : List Ev) (hok : ∀ b, Ev.block b ∈ evs → SmtOK b) (hlen : evs.length < maxVer)
+    (j : Nat) (hj : j ≤ (runEv shapeOfSource ptrOfSource [] evs).length) :
+    let disk := runEv shapeOfSource ptrOfSource [] evs
+    let crashed := disk.take j
+    ∃ i, i ≤ evs.length ∧
+      crashed = runEv shapeOfSource ptrOfSource [] (evs.take i) ∧
+      version crashed = (specRun [] (evs.take i)).length ∧
+      (∀ b, (specRun [] (evs.take i)).getLast? = some b → latestRoot crashed = b.root) ∧
+      runEv shapeOfSource ptrOfSource crashed (evs.drop i) = disk := by
+  rw [shape_single, ptr_lss] at hj ⊢
+  simp only
+  obtain ⟨i, hi, he⟩ := take_runEv_single .lss evs [] j (Nat.zero_le _) hj
+  have hinv := ChainInv.run (evs.take i) [] [] chainInv_empty
+    (fun b hb => hok b (List.mem_of_mem_take hb)) (by simp; omega)
+  refine ⟨i, hi, he, ?_, ?_, ?_⟩
+  · rw [he]; exact hinv.ver
+  · rw [he]; exact hinv.root
+  · rw [he, ← runEv_append, List.take_append_drop]
+
+/-- blocks 1, 2, 3 — `Rollback(1)` — blocks 2', 3' -/
+def rewound : List Ev :=
+  [.block { ops := [([1, 97], .set [1])], idx := [([6, 1], [0xA1])], root := [1] },
+   .block { ops := [([1, 97], .set [2])], idx := [([6, 2], [0xA2])], root := [2] },
+   .block { ops := [([1, 98], .set [3])], idx := [([6, 3], [0xA3])], root := [3] },
+   .rollback 1,
+   .block { ops := [([1, 97], .set [4])], idx := [([6, 2], [0xB2])], root := [4] },
+   .block { ops := [([1, 99], .set [5])], idx := [([6, 3], [0xB3])], root := [5] }]
+
+/-- non-vacuity: with the source's shape and pointer position the rewound history opens, after 0 … 6 surviving
+batches, at heights 0 1 2 3 1 2 3, and at the end holds the state, root and index of the new branch -/
+example :
+    (List.range 7).map (fun j => version ((runEv shapeOfSource ptrOfSource [] rewound).take j)) = [0, 1, 2, 3, 1, 2, 3] ∧
+    (let d := runEv shapeOfSource ptrOfSource [] rewound
+     stateScan d = [([1, 97], [4]), ([1, 99], [5])] ∧ latestRoot d = [5] ∧ idxGet d [6, 3] = some [0xB3] ∧
+     stateScanAt d 1 = [([1, 97], [1])]) := by decide +kernel
+
+/-- **were `setCommitID` to write the pointer at the version being committed, the property would fail**: the
+record `Rollback(1)` leaves at the reserved version shadows the pointers of blocks 2', 3' — the store opens at
+the stale height 1 although the state, the index and the commit id of height 3 are those of block 3'. -/
+theorem pointer_at_commit_version_reopens_staleX :
+    let d := runEv .single .commitVersion [] rewound
+    version d = 1 ∧ latestRoot d = [1] ∧
+    stateScan d = [([1, 97], [4]), ([1, 99], [5])] ∧
+    smGet (dbOf d) (mkKey (commitIDKey 3) 3) = some (cidVal 3 [5]) ∧
+    (specRun [] rewound).length = 3 := by
+  decide +kernel
+
+/-- …and without a rollback in the history the two pointer positions are indistinguishable, which is why only
+histories with a rollback expose it -/
+example : (List.range 3).all (fun j =>
+    version ((run .single .commitVersion [] demo).take j) == version ((run .single .lss [] demo).take j)) = true := by
   decide +kernel
 
 end Canopy.C09
